@@ -95,7 +95,7 @@ def main():
         "engines": [{"name": "gosmt", "path": "/verif/engine", "serves_properties": sorted(CHECKS), "kind_free_text": "go/ssa symbolic executor with state merging; SMT-LIB2 QF_BV queries decided by z3 5.1 (z3-new); counterexample and cover models replayed natively through `go test -overlay`"}],
         "checks": checks,
         "not_applicable": na,
-        "notes": "Every check exits 0 = all obligations unsat within the stated bounds and all cover points satisfiable and natively reached; 1 = replayed violation not listed in known_findings.json; 2 = broken (unsupported code, undecided query, vacuous harness, model that does not reproduce). fix: commits in /repo: 288c728 (C03), 7d87c36 (C06), 1c28c1b (C07), 3e84664 (C08), ab07dc1 (C14), 67b69e1 (C16), 4aea936+51ad804 (C15), 9975e1e+e3d37c1 (C19), eb0564f (C09), 9d661ca (C16 broker order), 9d98e20 (C07 file MarkSeen), ad2f77f+4c7bc0f (C11), 3de1e55 (C10 id reuse after restart), 9a3f2a1 (C04 domain case), 67ffb6e+cf6e756 (C04 empty / dotted base name), 7c537cb (C02 POP3 long lines), 0b6c731 (C04 POP3 mailbox name), 82795e5 (C15 closed listener), 11dcc6e (C11 cap eviction atomic), 6581824 (C15 slow monitor), dbbb36a (C09 evict vs remove), 94ac69d (C04 address literals), 5aae425 (C01 partial delivery), 4e34402 (C14 slash in mailbox name routable).",
+        "notes": "Every check exits 0 = all obligations unsat within the stated bounds and all cover points satisfiable and natively reached; 1 = replayed violation not listed in known_findings.json; 2 = broken (unsupported code, undecided query, vacuous harness, model that does not reproduce). fix: commits in /repo: 288c728 (C03), 7d87c36 (C06), 1c28c1b (C07), 3e84664 (C08), ab07dc1 (C14), 67b69e1 (C16), 4aea936+51ad804 (C15), 9975e1e+e3d37c1 (C19), eb0564f (C09), 9d661ca (C16 broker order), 9d98e20 (C07 file MarkSeen), ad2f77f+4c7bc0f (C11), 3de1e55 (C10 id reuse after restart), 9a3f2a1 (C04 domain case), 67ffb6e+cf6e756 (C04 empty / dotted base name), 7c537cb (C02 POP3 long lines), 0b6c731 (C04 POP3 mailbox name), 82795e5 (C15 closed listener), 11dcc6e (C11 cap eviction atomic), 6581824 (C15 slow monitor), dbbb36a (C09 evict vs remove), 94ac69d (C04 address literals), 5aae425 (C01 partial delivery), 444ce1b (C14 slash in mailbox name routable).",
     }
     json.dump(m, open('/verif/MANIFEST.json', 'w'), indent=1)
     print("checks:", [c['property_id'] for c in checks], "n/a:", len(na))
